@@ -1171,7 +1171,7 @@ def _run(ctx, P, yaml, GridCase):
     corpus = load_corpus()
     confs = [(c['config'], c.get('queries'), c.get('params', {})) for c in corpus]
     ncorpus = len(confs)
-    for k in range(ctx.n(36, 260)):
+    for k in range(ctx.n(28, 260)):
         confs.append((gen_config(ctx, info, k), None, None))
     nq_w = ctx.n(14, 24)
     nq_t = ctx.n(14, 24)
@@ -1343,7 +1343,10 @@ def _run(ctx, P, yaml, GridCase):
                 continue
             wa, sa, ua, qs_a = built_wms[name]
             wb, sb, ub, qs_b = built_wms[name + 'b']
-            for q in (qs_a[:ctx.n(5, 8)] + qs_b[:ctx.n(3, 5)]):
+            # queries in an SRS that only one of the two sources lists come first
+            diff = set(wa.supported) ^ set(wb.supported)
+            special = [q for q in qs_a + qs_b if q['srs'] in diff][:4]
+            for q in (special + qs_a[:ctx.n(5, 8)] + qs_b[:ctx.n(3, 5)]):
                 pr = run_pair(P, sa, sb, q, info)
                 if pr is None:
                     continue
